@@ -58,7 +58,7 @@ theorem session_nofault_ledger (ho : TotalOrder cmp) (segs : List Segment) (t : 
     TreeTable.liveOf (t.runSession cmp segs m).2.2 t.triple + t.size =
       TreeTable.liveOf m t.triple + (t.runSession cmp segs m).2.1.size ∧
     TreeTable.Owns (t.runSession cmp segs m).2.1 (t.runSession cmp segs m).2.2 :=
-  (C03.session_refines_model ho segs t h m hm).2.2.2
+  (C03.session_refines ho segs t h m hm).2.2.2
 
 /-- (b) **`new … any session … destroy` returns the ledger to where it started**, whatever the
 allocator refuses on the way, on whichever triple the table was built, without a fault -/
@@ -84,14 +84,14 @@ theorem new_refused_no_leak (tr : Triple) (m0 : Mem) (h : (TreeTable.newT tr m0)
     (TreeTable.newT tr m0).2.2.fault = m0.fault :=
   (C03.new_inv (cmp := fun _ _ => 0) tr m0).2.2 h
 
-/-- (c) the callback variants (`foreach_key`, `foreach_value`) hand every held key / value to the
-callback exactly once, in ascending key order, and change nothing.  (`_model`: the enumeration is
-defined on the in-order list, see the header of `C03`.) -/
-theorem foreach_each_once_model (t : TreeTable) (m : Mem) :
+/-- (c) the callback variants (`foreach_key`, `foreach_value`: the `tree_min` + `get_successor_node`
+loop) hand every held key / value to the callback exactly once, in ascending key order, and change
+nothing -/
+theorem foreach_each_once (t : TreeTable) (m : Mem) :
     (t.step cmp .foreachKey m).1.log = keys t.abs ∧ (t.step cmp .foreachValue m).1.log = values t.abs ∧
     (t.step cmp .foreachKey m).2.1 = t ∧ (t.step cmp .foreachValue m).2.1 = t ∧
     (t.step cmp .foreachKey m).2.2.1 = m ∧ (t.step cmp .foreachValue m).2.2.1 = m :=
-  ⟨rfl, rfl, rfl, rfl, rfl, rfl⟩
+  ⟨TreeTable.foreachKey_spec t, TreeTable.foreachValue_spec t, rfl, rfl, rfl, rfl⟩
 
 /-! ## tree set -/
 
@@ -143,7 +143,7 @@ theorem set_iter_nofault_ledger (ho : TotalOrder cmp) (s : TreeSet) (h : s.Inv c
     (TreeTable.IterValid cmp s.t s.iterInit prog m → (s.iterRun cmp s.iterInit prog m).2.2.2.fault = m.fault) ∧
     TreeTable.liveOf (s.iterRun cmp s.iterInit prog m).2.2.2 s.triple + s.t.size =
       TreeTable.liveOf m s.triple + (s.iterRun cmp s.iterInit prog m).2.1.t.size := by
-  have k := (C03.iter_refines_model ho s.t h.1 prog m hm).2.2.2
+  have k := (C03.iter_refines ho s.t h.1 prog m hm).2.2.2
   have e := TreeSet.iterRun_eq_table (cmp := cmp) prog s s.iterInit m
   rw [e.2.1, e.2.2.2, ← h.2.2]
   exact ⟨k.1, k.2.1⟩
